@@ -556,6 +556,13 @@ func (r *Run) fail(viol []*Failure, noEvidence bool, cov map[string]interface{})
 		rr := f.Replay
 		if f.Obl != nil && r.cfg.Replay != nil {
 			rr = r.cfg.Replay(r, f.Obl)
+		} else if rr == nil && r.cfg.Replay != nil && !strings.HasPrefix(f.Name, "oracle:") && f.Name != "contract-syntax" {
+			// a function that left the subset, or an obligation of the reference tree that is no longer generated: the
+			// verifier has no verdict, but the bounded oracle of the property can still look for a failing input
+			func() {
+				defer func() { recover() }()
+				rr = r.cfg.Replay(r, &Obligation{Name: f.Name, Verdict: "missing", Note: f.Reason})
+			}()
 		}
 		file := filepath.Join(replayDir, sanitizeFile(f.Name)+".json")
 		rec := map[string]interface{}{
